@@ -77,11 +77,14 @@ VARIABLES cfg,        \* scenario (constant during a behaviour of the model)
           firstFinal, \* ghost: version -> first content seen at its final path (0 none)
           pubOK,      \* ghost: every version became visible as latest+1
           okRet,      \* ghost: set of <<version, content>> whose commit returned success
+          marks,      \* ghost: rarely reached program points visited so far (kept in the VIEW so that
+                      \*        scenario generation prints schedules that reach them)
           hist,       \* ghost: the schedule so far (scenario generation)
           last        \* ghost: label of the last call (trace validation)
 
-mvars == <<obj, ext, lease, budget, cfg, ac, owner, published, firstFinal, pubOK, okRet>>
-vars  == <<obj, ext, lease, budget, cfg, ac, owner, published, firstFinal, pubOK, okRet, hist, last>>
+mvars == <<obj, ext, lease, budget, cfg, ac, owner, published, firstFinal, pubOK, okRet, marks>>
+vars  == <<obj, ext, lease, budget, cfg, ac, owner, published, firstFinal, pubOK, okRet, marks, hist, last>>
+RarePcs == {"c_headfin", "c_headst", "c_extget", "f_headfinal", "v_extput", "v_headstaging", "o_headstaging", "v_alt2"}
 View  == mvars
 
 Actors  == {1, 2, 3, 4, 5, 9}
@@ -600,6 +603,7 @@ Ghost ==
   /\ firstFinal' = [v \in VRange |-> IF firstFinal[v] = 0 /\ FinalP(v) \in DOMAIN obj'
                                       THEN obj'[FinalP(v)] ELSE firstFinal[v]]
   /\ pubOK' = (pubOK /\ \A v \in VisibleIn(obj', ext') \ Visible : v = LatestIn(obj, ext) + 1)
+  /\ marks' = marks \cup ({ac'[a].pc : a \in Actors} \cap RarePcs)
 
 \* a fresh content token for the manifest built by actor a in its current attempt
 Tok(a) == 10 * a + ac[a].attempt + 2
@@ -697,6 +701,7 @@ InitWith(c) ==
   /\ firstFinal = [v \in VRange |-> IF v = 1 THEN 1 ELSE 0]
   /\ pubOK = TRUE
   /\ okRet = {<<1, 1>>}
+  /\ marks = {}
   /\ hist = <<>>
   /\ last = [a |-> 0, op |-> "init", cls |-> "other", v |-> -1, c |-> -1, out |-> "ok"]
 
